@@ -16,61 +16,61 @@ CHECKS = {
          "Held on the executions explored: generated direct workflows (forks, full joins, guards, on-success / on-error / on-complete routes, task-defaults handlers, fail / succeed / noop commands, failing expressions in input / publish / transitions), fork-join shapes with dead chains and dead cycles, bounded cycles driven by a published counter, reverse (requires) graphs and a family with partial joins / merges / commands anywhere; several action-result assignments and delivery orders (fifo, lifo, random, PCT, starvation of jobs / post-commit operations), both schedulers.  Deciding monitors: quiescence (after everything in flight and three integrity-check periods: every execution final, no task of a naturally finished workflow unfinished), exception type (only declared error types leave engine entry points, post-commit operations, scheduled jobs), and on the deterministic fragment an executable reference semantics written from the language documentation (mvf/ref.py): workflow state, multiset of task executions with states, the input each action received, which actions ran and the evaluated output must be equal to the reference's.",
          "runtime monitoring: reference-model monitor (independent executable semantics of the workflow language) over recorded final rows and ACTION_RUN events + quiescence / exception-type trace monitors, under schedule perturbation"),
  'C02': ('exploration',
-         "Held on the executions explored: for each generated deterministic-fragment program (and bundled definitions) a canonical fifo run and perturbed runs (other schedules incl. PCT/delay/starvation with yield points at transaction entry, early clock advances, other uuid seed, spec caches dropped after every step, other scheduler implementation, dfs over all unit orders of small programs) must have equal normal forms; icontract contracts on merge_context_by_version / _rearrange_commands evaluated on the engine's real arguments.",
+         "Held on the executions explored: for each generated deterministic-fragment program (and bundled definitions) a canonical fifo run and perturbed runs (other schedules incl. PCT/delay/starvation with yield points at transaction entry, early clock advances, other uuid seed, spec caches dropped after every step, other scheduler implementation, dfs over all unit orders of small programs) must have equal normal forms; icontract contracts on merge_context_by_version / _rearrange_commands evaluated on the engine's real arguments. Warm-process perturbation: the same definitions ran before in the same engine process with other input (database wiped, in-memory caches kept).",
          "runtime monitoring: metamorphic run-vs-run equality of recorded final rows across schedules + runtime contracts (icontract) on the merge functions"),
  'C03': ('exploration',
          "Held on the executions explored: every compare-and-swap call, attribute write and committed row change of workflow/task/action state, accepted flag and output is judged online against the transition table of the statement, while operator commands and stale events (pause, resume, stop x3, rerun, skip, on_action_update, late/second results) are injected at unit boundaries of generated runs.",
          "runtime monitoring: online trace monitor (lifecycle table) over hooked CAS/attribute/row events under command injection at every unit boundary"),
  'C04': ('exploration',
-         "Held on the executions explored: fork/join shapes (all/N/one, nested, fed through on-error/on-complete/non-firing guards, dead chains longer than the engine's search depth, dead cycles) and requires-graphs with the asynchronous branch results held by the harness and delivered in every order (k! for small k) under several transaction orders; monitors: join leaves WAITING only with the required number of committed routed inbound completions, one execution and one start per join and run, no join WAITING forever, reverse tasks start only after their requires succeeded and only inside the target's closure.",
+         "Held on the executions explored: fork/join shapes (all/N/one, nested, fed through on-error/on-complete/non-firing guards, dead chains longer than the engine's search depth, dead cycles) and requires-graphs with the asynchronous branch results held by the harness and delivered in every order (k! for small k) under several transaction orders; monitors: join leaves WAITING only with the required number of committed routed inbound completions, one execution and one start per join and run, no join WAITING forever, reverse tasks start only after their requires succeeded and only inside the target's closure. Shapes include dead chains cut after a task that ran (beyond the engine's search depth, as the only obstacle); a join completes at most once per run (join-completed-twice).",
          "runtime monitoring: join-start / requires trace monitors over per-commit row diffs, with harness-controlled completion orders of asynchronous branches"),
  'C05': ('exploration',
-         "Held (up to the two listed known findings) on the executions explored: random fork/join DAGs of 3..9 tasks with publish / publish-on-error / transition-level branch and global publishes of values unique to their publisher (scalars, lists, dictionaries with publisher-specific keys, nested, empty), literal / YAQL / Jinja, fallbacks in input / vars / environment, some tasks attempting to mutate what they see through Jinja method calls; each program under several id orders (seeded uuids) and unit orders; oracle: every variable a task's action receives and every output variable is exactly the value of a causally maximal publisher among the ancestors (fallback if none; concurrent publishers for globals), stored in_context / published / input columns change only in the commits that legitimately write them, evaluate_recursively leaves its context argument unchanged (icontract).",
+         "Held (up to the two listed known findings) on the executions explored: random fork/join DAGs of 3..9 tasks with publish / publish-on-error / transition-level branch and global publishes of values unique to their publisher (scalars, lists, dictionaries with publisher-specific keys, nested, empty), literal / YAQL / Jinja, fallbacks in input / vars / environment, some tasks attempting to mutate what they see through Jinja method calls; each program under several id orders (seeded uuids) and unit orders; oracle: every variable a task's action receives and every output variable is exactly the value of a causally maximal publisher among the ancestors (fallback if none; concurrent publishers for globals), stored in_context / published / input columns change only in the commits that legitimately write them, evaluate_recursively leaves its context argument unchanged (icontract). Programs include inbound transitions that do not fire into partial joins (a task named as inbound but not on a causal path must not contribute data).",
          "runtime monitoring: causal-order oracle over recorded ACTION_RUN inputs with unique published values + per-commit column-stability monitor + runtime contract (icontract) on evaluate_recursively"),
  'C06': ('fault_enumeration',
-         "Held on the fault sequences enumerated: for each recorded message of a base run a copy is delivered at later unit boundaries of the identical schedule (start_task, on_action_complete incl. sub-workflow results, start_workflow with id), run_action is redelivered with/without losing the original x safe-rerun; oracle: normal form and row counts equal to the duplicate-free run, run-once and accepted-once counters.",
+         "Held on the fault sequences enumerated: for each recorded message of a base run a copy is delivered at later unit boundaries of the identical schedule (start_task, on_action_complete incl. sub-workflow results, start_workflow with id), run_action is redelivered with/without losing the original x safe-rerun; oracle: normal form and row counts equal to the duplicate-free run, run-once and accepted-once counters. Base histories may contain an operator pause (workflow / running asynchronous action) and resume, so copies also reach PAUSED tasks; per action execution the genuine results never outnumber its runs.",
          "runtime monitoring: offline comparison of recorded histories (duplicate-free vs duplicated run) + exactly-once counters over ACTION_RUN / RPC_SEND events under message duplication at every position"),
  'C07': ('exploration',
-         "Held on the executions explored: a with-items task over 0..7 items (actions or sub-workflows, one or two collections), concurrency absent / 1..n+1 / expression, per-item success / error / cancel, optional retry, item results held by the harness and delivered in every order (n! for small n) under several transaction orders; invariants evaluated after every commit (per index at most one accepted-or-unfinished child, indexes in range, unfinished children <= concurrency, no completion before every item is accepted) and at completion (state by the statement, published result in item order, empty list succeeds without children).",
+         "Held on the executions explored: a with-items task over 0..7 items (actions or sub-workflows, one or two collections), concurrency absent / 1..n+1 / expression, per-item success / error / cancel, optional retry, item results held by the harness and delivered in every order (n! for small n) under several transaction orders; invariants evaluated after every commit (per index at most one accepted-or-unfinished child, indexes in range, unfinished children <= concurrency, no completion before every item is accepted) and at completion (state by the statement, published result in item order, empty list succeeds without children). Also: rerun of the failed task inside several failed sub-workflow items back to back, rerun of CANCELLED tasks (also while items of the cancelled attempt still run), a warm engine process (same definition run before with another concurrency).",
          "runtime monitoring: structural invariants of child-execution rows checked at every commit (quiescent points of the engine's own transactions) + result-order oracle, with harness-controlled completion orders"),
  'C08': ('exploration',
-         "Held on the executions explored: a task carrying one policy between a predecessor and a successor (also as a join fed by two branches; synchronous and asynchronous actions): retry (count 0..3, delay 0..2, break-on / continue-on, every per-attempt outcome sequence), wait-before, wait-after, timeout (result in time, or withheld past the timeout and delivered late), fail-on, pause-before; values as literals / YAQL / Jinja, task level and task-defaults, both schedulers, fifo / lifo / random unit orders on the virtual clock; oracle: arithmetic of the statement on attempts, gaps between attempts, first start, successor creation, final states and messages.",
+         "Held on the executions explored: a task carrying one policy between a predecessor and a successor (also as a join fed by two branches; synchronous and asynchronous actions): retry (count 0..3, delay 0..2, break-on / continue-on, every per-attempt outcome sequence), wait-before, wait-after, timeout (result in time, or withheld past the timeout and delivered late), fail-on, pause-before; values as literals / YAQL / Jinja, task level and task-defaults, both schedulers, fifo / lifo / random unit orders on the virtual clock; oracle: arithmetic of the statement on attempts, gaps between attempts, first start, successor creation, final states and messages. Also policy combinations (retry + wait-before + wait-after + large timeout; timeout + wait-before) judged by the union of the individual bounds, and a warm engine process (same definition run before with other parameter values).",
          "runtime monitoring: offline arithmetic checker over recorded ACTION_RUN events, virtual-clock times and row history, under schedule perturbation and harness-controlled timer/result order"),
  'C09': ('exploration',
          "Held (up to the listed known finding) on the executions explored: chains of 1..3 nested sub-workflow calls (one level optionally with-items), each level defined in a random subset of {workbook member, standalone} x {caller's namespace, default namespace}, referenced by short / workbook-qualified name, literally or through YAQL / Jinja, started in-process or through the message bus, leaf outcomes success / error / cancel, errors handled or not, undeclared inputs incl. names colliding with engine-internal parameters, a root environment; leaf results held and delivered in every order under several unit orders and both schedulers; the recorded execution tree must equal the tree given by an independent evaluator of the documented name resolution and outcome composition (definition, state, output per node), with root link, namespace, params/input split, env() at every level, calling-task state and result, one result message and one successor per child completion.",
          "runtime monitoring: reference-model monitor (independent evaluator of name resolution and outcome composition) over the recorded tree of execution rows, RPC messages and ACTION_RUN events, with harness-controlled completion orders"),
  'C10': ('exploration',
-         "Held on the executions explored: pause injected at unit boundaries of generated runs (root or nested execution), everything in flight drained while PAUSED, resume, drain; monitors: no task row inserted while the execution is and stays PAUSED, acknowledged pause => PAUSED (with sub-workflows), normal form equal to the never-paused run on the deterministic fragment.",
+         "Held on the executions explored: pause injected at unit boundaries of generated runs (root or nested execution), everything in flight drained while PAUSED, resume, drain; monitors: no task row inserted while the execution is and stays PAUSED, acknowledged pause => PAUSED (with sub-workflows), normal form equal to the never-paused run on the deterministic fragment. Also the workflow pausing itself: a pause command at every position of a transition list (in front of tasks and joins of the same list) or a pause-before policy, compared with the run of the program without it; programs with with-items tasks.",
          "runtime monitoring: no-insert-while-paused trace monitor + metamorphic equality with the unpaused run under pause injection at every unit boundary"),
  'C11': ('exploration',
-         "Held on the executions explored: stop(SUCCESS/ERROR/CANCELLED, msg) injected at unit boundaries on the root or a nested execution; monitors: requested final state/message/output.result held to the end, no task inserted after the stop, every unfinished descendant of a cancelled execution CANCELLED with its parent task, each finished sub-workflow reported to its parent exactly once, late results change nothing.",
+         "Held on the executions explored: stop(SUCCESS/ERROR/CANCELLED, msg) injected at unit boundaries on the root or a nested execution; monitors: requested final state/message/output.result held to the end, no task inserted after the stop, every unfinished descendant of a cancelled execution CANCELLED with its parent task, each finished sub-workflow reported to its parent exactly once, late results change nothing. Also cancel of a tree that was paused from above; programs with with-items tasks.",
          "runtime monitoring: finality / no-insert-after-stop / tree-consistency monitors over recorded row history and RPC sends under stop injection at every unit boundary"),
  'C12': ('exploration',
-         "Held on the histories explored: generated workflows (plain, join, with-items with/without concurrency, retry, sub-workflows) run to ERROR, then rerun (reset on/off) or skip of a failed task with a new outcome, drained, repeated up to 3 times; oracle: workflow, enclosing workflows and parent tasks RUNNING right after the request and the task leaves ERROR first, normal form at quiescence equal to a fresh run with the new outcomes from the start (engine vs engine), with-items reruns exactly the failed items (reset off) or all items once (reset on), skip => SKIPPED with its on-skip / on-success successors, requests for tasks not in ERROR refused.",
+         "Held on the histories explored: generated workflows (plain, join, with-items with/without concurrency, retry, sub-workflows) run to ERROR, then rerun (reset on/off) or skip of a failed task with a new outcome, drained, repeated up to 3 times; oracle: workflow, enclosing workflows and parent tasks RUNNING right after the request and the task leaves ERROR first, normal form at quiescence equal to a fresh run with the new outcomes from the start (engine vs engine), with-items reruns exactly the failed items (reset off) or all items once (reset on), skip => SKIPPED with its on-skip / on-success successors, requests for tasks not in ERROR refused. Also rerun after a handled failure (on-error handler ending in the fail command or failing itself; new attempt possibly without successors) judged by the universal monitors.",
          "runtime monitoring: metamorphic equality of recorded final rows (rerun history vs fresh run) + trace monitors on row history after each rerun request"),
  'C13': ('fault_enumeration',
          "Held on the schedules and crash points enumerated: 1..3 real DefaultScheduler / LegacyScheduler instances on the shared database, 1..3 jobs scheduled in committing / rolling-back / object-expiring transactions; interleavings of persist, in-memory dispatch, store poll and clock steps with yield points before every DB-API call (dfs by re-execution + randomized strategies); for recorded schedules a sys.monitoring LINE failpoint kills an instance at its k-th statement, for every k; oracle over the invocation log (at least once if committed, never early, exactly once without crash, never if rolled back) and has_scheduled_jobs(key, processing=False) compared with the committed rows at every unit boundary.  Thread mode: the real DefaultScheduler._dispatcher thread runs against the virtual clock (instrumented condition variable: virtual time-outs, scheduler notifies and spurious wake-ups; recording executor) under random operation sequences (schedule / advance by fractions of a second / spurious wake-up / run / poll / stop + restart); oracle over the dispatcher log: no submission before execute_at on the service clock, none twice, none after stop(), thread neither dies nor survives stop().",
          "runtime monitoring: offline checker over the recorded invocation log and dispatcher log + per-boundary assertion on the key query, under dfs interleaving, sys.monitoring statement-level crash injection and a virtual-time condition variable for the real dispatcher thread"),
  'C14': ('exploration',
-         "Held on the inputs explored: structure-aware and text-level mutants of every bundled YAML definition and of generated workflows, each through the workflow-list / workbook / action-list parsers with validation on and a share through the definition services (create/update with the DB); oracle: accepted or a declared 4xx definition error, never another exception nor a call over the time budget; for accepted definitions the specification rebuilt from its stored dict is equal through the public getters and every member cut out of a workbook text parses to the member written in the workbook.",
+         "Held on the inputs explored: structure-aware and text-level mutants of every bundled YAML definition and of generated workflows, each through the workflow-list / workbook / action-list parsers with validation on and a share through the definition services (create/update with the DB); oracle: accepted or a declared 4xx definition error, never another exception nor a call over the time budget; for accepted definitions the specification rebuilt from its stored dict is equal through the public getters and every member cut out of a workbook text parses to the member written in the workbook. Operators include transplant / schema-key (words of the language with schema-valid values put elsewhere) and inline-list (bracketed inline parameters); every case runs in a child process under a faulthandler watchdog (killed twice, the second time alone with ten times the budget => hang).",
          "runtime monitoring: outcome-class / round-trip / slicing monitors on the real parser and service entry points under structure-aware fuzzing, with faulthandler watchdogs for hangs"),
  'C15': ('exploration',
-         "Held on the enumerated matrix: projects pA (owner), pB (other, with same-named private resources), pM (member none/pending/accepted/rejected) and admin; every resource type x scope x every DB-API function taking an identifier / name / filter for that type (enumerated by name from mistral.db.v2.api) called under the actor's context, the same through the REST application, the engine entry points taking execution / task / action ids, expression functions evaluated in pB's workflow directly and through the real heartbeat-checker pass; oracle from the statement on results, exceptions and row snapshots; created rows carry the caller's project.",
+         "Held on the enumerated matrix: projects pA (owner), pB (other, with same-named private resources), pM (member none/pending/accepted/rejected) and admin; every resource type x scope x every DB-API function taking an identifier / name / filter for that type (enumerated by name from mistral.db.v2.api) called under the actor's context, the same through the REST application, the engine entry points taking execution / task / action ids, expression functions evaluated in pB's workflow directly and through the real heartbeat-checker pass; oracle from the statement on results, exceptions and row snapshots; created rows carry the caller's project. Membership histories (accepted, used, then revoked / left), a REST actor whose role names contain the word admin, every listing endpoint with project_id (all filter syntaxes) / all_projects / fields / paging filters.",
          "runtime monitoring: access-table oracle over results and row snapshots of the real DB API / REST app / engine entry points, exhaustive actor x operation matrix"),
  'C16': ('exploration',
          "Held on the enumerated matrix: every exposed controller method found by walking the controller tree is driven through the real WSGI application (resource present / absent): with default rules the first ENFORCE event names the documented rule and no tenant SQL / RPC precedes it; with that rule denied the answer is 403 for admin and member, with no tenant SQL, no RPC and identical table dumps; cross-project listing needs :list:all_projects, scope=public needs :publicize; state guards: every (current state x requested state x description/env) for executions, (state x state x reset) for tasks, every requested state for action executions, DELETE with/without force on every state, judged by the table of the statement.",
          "runtime monitoring: per-request event-order monitor (ENFORCE before SQL/RPC) and no-effect monitor (table dumps) over the real WSGI app, exhaustive request matrix"),
  'C17': ('fault_enumeration',
-         "Held (up to the listed known finding) on the schedules and crash points enumerated: 1..3 processors running the real process_cron_triggers_v2 as cooperative units with yield points before each DB step, triggers over patterns x first time x count x two projects with colliding names, rounds at clock positions around the due time and with lags of 1/7/100 periods; dfs + randomized interleavings; sys.monitoring LINE failpoints kill a processor at every statement of process_cron_triggers_v2 / advance_cron_trigger; oracle: every committed advance or final delete is followed by exactly one start_workflow of the same processor with the trigger's input, params, project and trust, no start without an advance, next_execution_time strictly increasing along the pattern, fires <= count and removal after the last.",
+         "Held (up to the listed known finding) on the schedules and crash points enumerated: 1..3 processors running the real process_cron_triggers_v2 as cooperative units with yield points before each DB step, triggers over patterns x first time x count x two projects with colliding names, rounds at clock positions around the due time and with lags of 1/7/100 periods; dfs + randomized interleavings; sys.monitoring LINE failpoints kill a processor at every statement of process_cron_triggers_v2 / advance_cron_trigger; oracle: every committed advance or final delete is followed by exactly one start_workflow of the same processor with the trigger's input, params, project and trust, no start without an advance, next_execution_time strictly increasing along the pattern, fires <= count and removal after the last. An occurrence is consumed only when it is due on the service clock.",
          "runtime monitoring: offline checker over recorded trigger-row history and start_workflow calls, under dfs interleaving and statement-level crash injection"),
  'C18': ('exploration',
-         "Held on the populations explored: random populations of execution trees (states, ages with ties, projects, nesting) x settings of older_than / max_finished_executions / batch_size / ignored_states incl. unset; one call of the real run_execution_expiration_policy compared with a 25-line reference of what must remain, plus tree completeness of survivors, whole-tree deletion, no ineligible deletion, no newer-deleted-while-older-kept, termination within a fetch budget.",
+         "Held on the populations explored: random populations of execution trees (states, ages with ties, projects, nesting) x settings of older_than / max_finished_executions / batch_size / ignored_states incl. unset; one call of the real run_execution_expiration_policy compared with a 25-line reference of what must remain, plus tree completeness of survivors, whole-tree deletion, no ineligible deletion, no newer-deleted-while-older-kept, termination within a fetch budget. A share of the populations runs with a persistent failure of one delete (termination within the step budget, eligibility and completeness only).",
          "runtime monitoring: reference-model monitor over row sets before/after the real policy run on generated populations"),
  'C19': ('exploration',
          "Held on the URLs explored: a catalogue of addresses inside/outside the denied networks rendered from their numeric value in every textual form (decimal, octal, hex, short, mixed radix, IPv6 spellings, IPv4-mapped IPv6, zone ids, case), fake-resolver names with single/multiple/mixed answers, schemes, userinfo, ports, parser-differential candidates, under default and operator-modified denied_cidrs / allowed_hosts; validate_url must refuse what the statement demands (ground truth by construction) and an audit-hook egress sanitizer under the real requests stack driven by the real HTTPAction / MistralHTTPAction / WebhookPublisher must never see a connect to a denied address nor a client call for a refused URL.",
          "runtime monitoring: sys.addaudithook egress sanitizer (socket.connect / getaddrinfo) under the real HTTP client + ground-truth-by-construction oracle on validate_url"),
  'C20': ('fault_enumeration',
-         "Held on the fault sequences enumerated: silent / answered / asynchronous actions in forked workflows, heartbeats for subsets, real handle_expired_actions passes with the virtual clock at threshold-1 / threshold / threshold+1 / far beyond (after the last heartbeat or the first-heartbeat grace) in every order relative to late genuine results, settings incl. disabled; oracle: age >= threshold+1 must be failed with the heartbeat error, age <= threshold-1 must not, asynchronous / fresh / finished never, task and workflow follow their error handling, late results change no row; a stuck task manufactured by losing exactly one hand-off (with-items completion job, child->parent result) is completed exactly once by the engine's own integrity job so that the run equals the loss-free run, nothing scheduled with a negative delay.",
+         "Held on the fault sequences enumerated: silent / answered / asynchronous actions in forked workflows, heartbeats for subsets, real handle_expired_actions passes with the virtual clock at threshold-1 / threshold / threshold+1 / far beyond (after the last heartbeat or the first-heartbeat grace) in every order relative to late genuine results, settings incl. disabled; oracle: age >= threshold+1 must be failed with the heartbeat error, age <= threshold-1 must not, asynchronous / fresh / finished never, task and workflow follow their error handling, late results change no row; a stuck task manufactured by losing exactly one hand-off (with-items completion job, child->parent result) is completed exactly once by the engine's own integrity job so that the run equals the loss-free run, nothing scheduled with a negative delay. Task-less expired actions that fill a batch; expiry judged as bounded progress (a pass may stop at its batch size, after as many final passes as there are actions nothing is left); integrity check after a rerun in a three-level tree.",
          "runtime monitoring: expiry-predicate monitor over action rows before/after each real checker pass on the virtual clock + metamorphic equality with the loss-free run after single hand-off loss"),
 }
 NOTES = {'C01': "Trusted base: mvf/ref.py (reference semantics for direct workflows without partial joins, merges upstream of joins, policies, with-items, sub-workflows; reverse workflows), mvf/lang.py (independent YAML reading), the harness.  Outside the fragment, and where a command / failing expression ends the workflow while an unordered task is active, only the universal monitors decide.",
